@@ -7,6 +7,14 @@ def run(tier, seed):
     run = Run("C11", tier, seed)
     build_harness()
     th = tier == "thorough"
+    # bellman_ford / find_negative_cycle as coded (with the repair 0a08617), every weighted digraph of the bound under
+    # every per-node edge order
+    d = os.path.join(SPEC, "algo")
+    base = open(os.path.join(d, "MCNegCycle.cfg")).read()
+    q = base if th else base.replace("MaxEdges = 4", "MaxEdges = 3")
+    open(os.path.join(d, "out_MCNegCycle.cfg"), "w").write(q)
+    run.add_mc("NegCycle N=3 weights -2..1, at most %d edges" % (4 if th else 3), tlc("algo/NegCycle", "out_MCNegCycle.cfg", workers=10, timeout=2400, tag="c11nc"))
+    os.remove(os.path.join(d, "out_MCNegCycle.cfg"))
     recs, matrix = sweep(run, "C11", seed, 3, 2500 if th else 200, 7 if th else 5)
     run.extra["applicability_matrix"] = matrix
     mid = recs[len(recs) // 2]
